@@ -55,7 +55,15 @@ fn fwd(op: &Op, _ctx: &dyn Context, operands: &mut dyn CoordinateSet) -> usize {
     let H = F * t0.powf(B);
     let G = (F - 1.0 / F) / 2.0;
     let gamma_0 = (alpha.sin() / D).asin();
-    let lambda_0 = lonc - (G * gamma_0.tan()).asin() / B;
+    // For an initial line running due east or west at the centre, G * tan(gamma_0) is
+    // 1 or -1. Roundoff must neither push it out of the domain of asin (NaN for every
+    // point), nor leave it just inside, where asin is ill conditioned
+    let gt = G * gamma_0.tan();
+    let lambda_0 = if ninety {
+        lonc - FRAC_PI_2.copysign(gt) / B
+    } else {
+        lonc - gt.clamp(-1.0, 1.0).asin() / B
+    };
 
     // (uc, vc): Intermediate coordinates of the projection center
     // let vc = 0.0;
@@ -150,7 +158,15 @@ fn inv(op: &Op, _ctx: &dyn Context, operands: &mut dyn CoordinateSet) -> usize {
     let H = F * t0.powf(B);
     let G = (F - 1.0 / F) / 2.0;
     let gamma_0 = (alpha.sin() / D).asin();
-    let lambda_0 = lonc - (G * gamma_0.tan()).asin() / B;
+    // For an initial line running due east or west at the centre, G * tan(gamma_0) is
+    // 1 or -1. Roundoff must neither push it out of the domain of asin (NaN for every
+    // point), nor leave it just inside, where asin is ill conditioned
+    let gt = G * gamma_0.tan();
+    let lambda_0 = if ninety {
+        lonc - FRAC_PI_2.copysign(gt) / B
+    } else {
+        lonc - gt.clamp(-1.0, 1.0).asin() / B
+    };
 
     // (uc, vc): Intermediate coordinates of the projection center
     // let vc = 0.0;
